@@ -279,6 +279,62 @@ theorem dijkstra_route_summary (c : Config α) (hadj : c.AdjConsistent) (hwf : c
     RouteSums.summary_closed_form hacc h2 ⟨hi, hik⟩ ⟨hj, hjk⟩
   exact ⟨route, s, fd, ft, h1, hs, hfd, hft, hd, ht, ho⟩
 
+/-- the distance statement with the values written out: `lens` are the stored lengths of the
+route's edges; distance at element `k` = initial value + Σ of the first `k + 1` lengths, each
+converted base unit → the traversal model's unit `du` → the feature's unit `fu` — equivalently the
+total length converted once. -/
+theorem dijkstra_route_distance_is_sum_explicit (c : Config α) (hadj : c.AdjConsistent)
+    (hwf : c.wf = some 0) {source t : Nat} {sched : List Nat} {res : SearchResult α} (hts : t ≠ source)
+    (hrun : runVertexOriented c.inst source (some t) sched = .ok res)
+    {i : Nat} {fu : DistanceUnit} (hi : featIndex c.feats "distance" = some i)
+    (hk : (c.feats[i]?).map (·.kind) = some (FeatKind.dist fu)) :
+    ∃ (route : List (Branch α)) (f : Feat α) (lens : List α), res.route = some route ∧ route ≠ [] ∧
+      c.feats[i]? = some f ∧ lens.length = route.length ∧
+      (∀ k (hk : k < route.length), ∃ er, c.edges[route[k].edge]? = some er ∧
+        lens[k]? = some er.dist) ∧
+      ∀ k (hk : k < route.length),
+        route[k].state[i]? = some (f.init + ((lens.take (k + 1)).map (fun len =>
+          (RouteSums.travDu c.trav).convert fu
+            (baseDistanceUnit.convert (RouteSums.travDu c.trav) len))).sum) ∧
+        route[k].state[i]? = some (f.init + (RouteSums.travDu c.trav).convert fu
+          (baseDistanceUnit.convert (RouteSums.travDu c.trav) (lens.take (k + 1)).sum)) := by
+  obtain ⟨route, h1, h2, hacc⟩ := dijkstra_route_links c hadj hwf hts hrun
+  obtain ⟨f, lens, hf, hl, hdef, hsum⟩ :=
+    RouteSums.route_distance_is_sum_explicit hacc ⟨hi, hk⟩ rfl
+  exact ⟨route, f, lens, h1, h2, hf, hl, hdef, hsum⟩
+
+/-- the time statement with the values written out, speed-table model with turn delays:
+`times[k]` is what `create_time` returned for edge `k` (its table speed in `su`, its length in `du`,
+result in `tu`), `dls[k]` what the delay table returned for the turn from edge `k` to edge `k + 1`
+(the pair is swapped in a reverse search: `prevEdge` / `nextEdge`); time at element `k` = initial
+value + the first `k + 1` times + the first `k` delays, each converted to the feature's unit. -/
+theorem dijkstra_route_time_is_sum_explicit (c : Config α) (hadj : c.AdjConsistent)
+    (hwf : c.wf = some 0) {source t : Nat} {sched : List Nat} {res : SearchResult α} (hts : t ≠ source)
+    (hrun : runVertexOriented c.inst source (some t) sched = .ok res)
+    {j : Nat} {ftu : TimeUnit} (hj : featIndex c.feats "time" = some j)
+    (hk : (c.feats[j]?).map (·.kind) = some (FeatKind.time ftu))
+    {su : SpeedUnit} {du : DistanceUnit} {tu : TimeUnit} {ms : α} {table : List α}
+    (htrav : c.trav = .speed su du tu ms table)
+    {dtu : TimeUnit} {headings : List (Int × Option Int)} {delays : List (Option α)}
+    (hac : c.access = .turnDelay dtu headings delays) :
+    ∃ (route : List (Branch α)) (f : Feat α) (times dls : List α), res.route = some route ∧
+      route ≠ [] ∧ c.feats[j]? = some f ∧
+      times.length = route.length ∧ dls.length = route.length - 1 ∧
+      (∀ k (hk : k < route.length), ∃ er sp tv, c.edges[route[k].edge]? = some er ∧
+        table[route[k].edge]? = some sp ∧
+        createTime sp su (baseDistanceUnit.convert du er.dist) du tu = some tv ∧
+        times[k]? = some tv) ∧
+      (∀ k (hk : k + 1 < route.length), ∃ d,
+        turnDelayOf headings delays (RouteSums.prevEdge c route[k].edge route[k + 1].edge)
+          (RouteSums.nextEdge c route[k].edge route[k + 1].edge) = some d ∧ dls[k]? = some d) ∧
+      ∀ k (hk : k < route.length),
+        route[k].state[j]? = some (f.init + ((times.take (k + 1)).map (tu.convert ftu)).sum
+          + ((dls.take k).map (dtu.convert ftu)).sum) := by
+  obtain ⟨route, h1, h2, hacc⟩ := dijkstra_route_links c hadj hwf hts hrun
+  obtain ⟨f, times, dls, hf, ht, hd, htd, hdd, hsum⟩ :=
+    RouteSums.route_time_is_sum_speed_turnDelay hacc ⟨hj, hk⟩ htrav hac
+  exact ⟨route, f, times, dls, h1, h2, hf, ht, hd, htd, hdd, hsum⟩
+
 /- Full statement ("for every algorithm") is FALSE of model and code for A* runs whose estimate is
 inconsistent for the network: see known_findings.txt key route/stale-link-after-reopening and the
 5-vertex witness in harness/src/searchprops.rs (`stale_link_witness`); the theorem above is the
